@@ -215,6 +215,33 @@ def run_one(s):
                                           and len(pp) == ln and len(again_) == ln and set(co) == set(vs) | set(bind))
                     for i in range(len(pp)):
                         pe["plot"].append(U.q_of({v: [float(x) for x in co[v][i]] for v in vs}, dict(bind)))
+            # AnimationSampler: the one variable left free is the animation variable (frames over [0, 2]); the plot domain moves with it,
+            # every frame's points lie in the domain at the frame's value and the bound values
+            pe["anim"], pe["anim_exc"] = [], "none"
+            # (not when the animation variable drives a quarter-turn rotation: the denotation knows whole quarter turns only)
+            if len(rest) == 1 and not any(('"k": "%s"' % kk) in __import__("json").dumps(e) for kk in ("bd", "bdl", "bdr", "prod", "point")) \
+                    and ('"an": "%s"' % rest[0]) not in __import__("json").dumps(e):
+                an = rest[0]
+
+                def anim():
+                    iv = tp.domains.Interval(Space({an: 1}), 0.0, 2.0)
+                    a = tp.samplers.AnimationSampler(plot_domain=dom, animation_domain=iv, frame_number=3, n_points=20,
+                                                     data_for_other_variables={n: float(v) for n, v in bind.items()})
+                    ap = a.sample_animation_points()
+                    return ap, a.sample_plot_domain_points(ap), a.plot_domain_constant
+                r8 = watched(anim, 10)
+                if r8[0] != "ok":
+                    pe["anim_exc"] = r8[1] if len(r8) > 1 else "hang"
+                else:
+                    ap, frames, const = r8[1]
+                    pe["anim_exc"] = "constant-plot-domain" if const or not isinstance(frames, list) else ""
+                    if pe["anim_exc"] == "":
+                        vs = U.space_vars(e)
+                        for i, fr in enumerate(frames):
+                            tv = float(ap.as_tensor[i, 0])
+                            co = fr.coordinates
+                            for j in range(len(fr)):
+                                pe["anim"].append(U.q_of({v: [float(x) for x in co[v][j]] for v in vs}, dict(bind, **{an: tv})))
             # the ORIGINAL domain evaluated at bound values + remaining rows: must agree with D2
             full = {}
             attr(dom, names, [dict(r_, **bind) for r_ in rows], full)
